@@ -174,6 +174,13 @@ static Reg r_geo("nn_geo", [](const Args& a) {
   { std::string e = guarded([&] { copy_via(nn[0], nn[1], 1); copy_via(nn[0], nn[2], 2); });
     if (!e.empty()) { bad("save-load-roundtrip", "Load threw " + e + " on the image written by Save (double distances)"); emit("0 1"); return; } }
   long searches = 0, fails = 0;
+  // a save/load round trip must be lossless also for a floating distance type: the binary image of the tree read back from
+  // text (and from binary) equals the binary image of the original, so the node bounds are bit-for-bit the same
+  { std::ostringstream b0; nn[0].Save(b0, true);
+    for (int via = 1; via <= 2; ++via) { std::ostringstream b1; nn[via].Save(b1, true);
+      if (b1.str() != b0.str()) { bad("save-load-roundtrip", std::string("the tree read back from the ") + (via == 1 ? "text" : "binary") + " image differs from the original (double distances: node bounds not reproduced exactly)"); ++fails; } }
+    G nn3; std::string e = guarded([&] { copy_via(nn[0], nn3, 3); }); std::ostringstream b3; if (e.empty()) nn3.Save(b3, true);
+    if (!e.empty() || b3.str() != b0.str()) { bad("save-load-roundtrip", "operator<< / operator>> round trip is not lossless (double distances)"); ++fails; } }
   // the computed geodesic distance obeys the triangle inequality only to round-off (documented accuracy of GeodesicExact ~ 40 nm worst case):
   // the pruning decisions can therefore differ for distances within that margin; compare the distance lists with 4 x 40 nm
   const double tolm = 160e-9;
